@@ -14,14 +14,16 @@ func init() {
 	register(&Property{
 		ID:    "C01",
 		Level: "other",
-		Explanation: "Conservation itself is arithmetic over histories and is not decided. Decided are six structural necessary conditions. R1: every save of a foreign entry (one not read from the account being written) and every read-modify-write with a delta is " +
+		Explanation: "Conservation itself is arithmetic over histories and is not decided. Decided are eight structural necessary conditions. R1: every save of a foreign entry (one not read from the account being written) and every read-modify-write with a delta is " +
 			"preceded on every path by the addition of the current holding / the delta to the saved Value (must-pass-through, recognised by the save, not by the Add). R2: the nonce-parametrised reader relates the stored metadata nonce to the requested one, so " +
 			"that read key = write key (KNOWN FINDING on this tree). R3: the destination side accepts what the sender side emits — the number of arguments the emitter appends, as a linear form pre + n·iter obtained by counting appends along the def-use chain, " +
 			"equals the destination's own length requirement and is >= the shared pre-guard for n = 1 (NFT: 3 forwarded + payload = 4). R4: the quantity debited, the quantity the shipped/credited entry is set to, and (ESDTTransfer) the credited delta are one term; " +
 			"the Set(quantity) lies on every path from the debit to any use of the entry. R5: an account obtained from LoadAccount and modified is handed to SaveAccount on every path to a success return. R6: after the sender's debit every path to a success " +
-			"return passes a local credit of the destination, the construction of an output transfer, or (ESDTTransfer only) the edge `caller is not a contract`. Does NOT decide: the sums, delivery/refund histories, undelivered messages.",
+			"return passes a local credit of the destination, the construction of an output transfer, or (ESDTTransfer only) the edge `caller is not a contract`. R7: every debit below a transfer entry point is exact — the subtraction is guarded by holding >= " +
+			"quantity evaluated on the value subtracted from (an overdrawn NFT entry is deleted, not stored negative, so the excess would be created). R8: tokens are delivered once — for every pair of a local credit of a non-sender account and a message " +
+			"that carries tokens on under the function's own name, the guards of the one contradict the guards of the other (destination account present / same shard vs absent / other shard) or no control-flow path joins them. Does NOT decide: the sums, delivery/refund histories, undelivered messages.",
 		Trusted: []string{"math/big semantics", "A-deps", "A-protomsg"},
-		Rules:   []func(*Ctx){c01r1, c01r2, c01r3, c01r4, c01r5, c01r6},
+		Rules:   []func(*Ctx){c01r1, c01r2, c01r3, c01r4, c01r5, c01r6, c01r7, c01r8},
 	})
 }
 
